@@ -156,7 +156,8 @@ class _Quadrature(torch.autograd.Function):
     def backward(ctx, grad_ys):
         # retrieve the params
         ntensor_params = ctx.param_sep.ntensors()
-        tensor_params = ctx.saved_tensors[-ntensor_params:]
+        nlimits = len(ctx.saved_tensors) - ntensor_params
+        tensor_params = ctx.saved_tensors[nlimits:]
         allparams = ctx.param_sep.reconstruct_params(tensor_params)
         nparams = ctx.nparams
         params = allparams[:nparams]
@@ -165,7 +166,7 @@ class _Quadrature(torch.autograd.Function):
         with fcn.disable_state_change():
 
             # restore xl, and xu
-            xlxu_tensor = ctx.saved_tensors[:-ntensor_params]
+            xlxu_tensor = ctx.saved_tensors[:nlimits]
             if ctx.xltensor and ctx.xutensor:
                 xl, xu = xlxu_tensor
             elif ctx.xltensor:
@@ -202,8 +203,11 @@ class _Quadrature(torch.autograd.Function):
             # reconstruct grad_params
             # listing tensor_params in the params of quad to make sure it gets
             # the gradient calculated
-            dydts = quad(new_fcn, xl, xu, params=(grad_ys, *tensor_params),
-                         bck_options=ctx.bck_config, **ctx.bck_config)
+            if ntensor_params > 0:
+                dydts = quad(new_fcn, xl, xu, params=(grad_ys, *tensor_params),
+                             bck_options=ctx.bck_config, **ctx.bck_config)
+            else:
+                dydts = ()
             dydns = [None for _ in range(ctx.param_sep.nnontensors())]
             grad_params = ctx.param_sep.reconstruct_params(dydts, dydns)
 
